@@ -151,6 +151,9 @@ class HistoryRun:
                 if k == "u":
                     self.do_user(a)
                 elif k == "step":
+                    if len(a) > 2 and a[2]:
+                        from .shims import CLOCK
+                        CLOCK.sleep(a[2])       # time passing between two loop iterations (production loops sleep)
                     self.do_step(a[1])
                 elif k == "settle":
                     self.do_settle(final=(i == last_settle))
